@@ -164,7 +164,8 @@ func c05() []*Ob {
 					} else {
 						c.Violation("order:SearchDocs:chunks", fn.Pos(), "SearchDocs no longer consumes the prepared fraction list chunk by chunk")
 					}
-					merge := CallsIn(fn, Callee("seq.MergeQPRs"))
+					// the merge itself, or the call of a private helper that always merges (search-and-merge extracted)
+					merge := CallsIn(fn, c.P.MustCall(Callee("seq.MergeQPRs")))
 					ens := CallsIn(fn, Callee("fracmanager.calcEnsuredIDsCount"))
 					if len(merge) == 1 && len(ens) == 1 && Dominates(merge[0].(ssa.Instruction), ens[0].(ssa.Instruction)) {
 						okIDs := DerivesFrom(Arg(ens[0], 0), func(v ssa.Value) bool { return ValueIsField(v, "seq.QPR", "IDs") })
@@ -175,7 +176,23 @@ func c05() []*Ob {
 							c.Violation("prov:SearchDocs:ensured-args", ens[0].Pos(), "calcEnsuredIDsCount is not given the merged ids / the request order")
 						}
 						// merge limit is the original limit (not the shrunk one)
-						if _, isPhi := Arg(merge[0], 2).(*ssa.Phi); isPhi {
+						var limitArg ssa.Value
+						for _, lm := range c.P.FindLifted(fn, CallSel(Callee("seq.MergeQPRs"))) {
+							limitArg = Arg(lm.Call(), 2)
+							// a helper's parameter stands for what the helper was called with
+							for i := len(lm.Via) - 1; i >= 0; i-- {
+								p, isP := limitArg.(*ssa.Parameter)
+								if !isP {
+									break
+								}
+								for k, hp := range p.Parent().Params {
+									if hp == p && k < len(lm.Via[i].Common().Args) {
+										limitArg = lm.Via[i].Common().Args[k]
+									}
+								}
+							}
+						}
+						if _, isPhi := limitArg.(*ssa.Phi); isPhi {
 							c.Violation("prov:SearchDocs:merge-limit", merge[0].Pos(), "MergeQPRs is given the shrinking per-iteration limit instead of the original limit")
 						} else {
 							c.Site(merge[0].Pos(), "merged result is cut to the original limit")
